@@ -1,4 +1,5 @@
-import LanceModel.C34.SegLemmas
+import LanceModel.C34.SegHigh
+import LanceModel.C34.IndexNew
 /-!
 # C34 — row id sequences and the row id index are faithful
 
@@ -9,23 +10,237 @@ id index built from fragments maps every present id to its position and no absen
 Everything below is about the model in `Model.lean` (`Seg.toList` / `Seq.toList` is the abstraction function: what
 `iter()` yields); the tie to `rust/lance-table/src/rowids*.rs` is the correspondence run of `./check C34`.
 
-Domain: ids are `u64`s below `u64::MAX` (`x ≤ U64MAX` is all the proofs need; the code computes `max + 1`), a list handed to
-`from_slice` has no duplicates (`U64Segment`: "a sequence of distinct u64s").
+Domain.  Ids are `u64`s below `u64::MAX` (`x ≤ U64MAX` is all the proofs need; the code computes `max + 1`), a list handed
+to `from_slice` has no duplicates (`U64Segment`: "a sequence of distinct u64s"), and segments satisfy the representation
+invariant `Seg.WF` (sorted in-range holes, one bit per slot, strictly increasing sorted arrays, non-empty arrays), which
+every constructor preserves (`from_slice_wf`, and the `.WF` conjunct of every operation theorem below).  `Option`-valued
+model functions return `none` where the Rust code panics; "`= some …`" therefore also says "does not panic".
 -/
 namespace LanceModel.C34
 
-/-! ## Part 1: segments -/
+/-! ## Part 1: segments (`U64Segment`) -/
 
 /-- `U64Segment::from_slice` holds exactly the ids it was built from, in order, whatever encoding it picks -/
 theorem from_slice_faithful (xs : List Nat) (hle : ∀ x ∈ xs, x ≤ U64MAX) (hnd : xs.Nodup) :
-    (fromSlice xs).toList = xs :=
-  fromSlice_toList xs hle hnd
+    (fromSlice xs).toList = xs ∧ (fromSlice xs).WF :=
+  ⟨fromSlice_toList xs hle hnd, fromSlice_WF xs hle hnd⟩
 
-example : [3, 5, 6, 9].Nodup ∧ (∀ x ∈ [3, 5, 6, 9], x ≤ U64MAX) ∧ fromSlice [3, 5, 6, 9] = .bitmap 3 10 [true, false, true, true, false, false, true] := by
-  decide
-example : fromSlice [1, 2, 3, 4, 5, 6, 7, 8, 9, 10, 11, 12, 13, 14, 15, 16, 17, 18, 19, 20, 21, 22, 23, 24, 25, 26, 27, 28, 29, 30, 31, 32, 34]
-    = .holes 1 35 [33] := by decide
-example : fromSlice [7, 3, 5] = .array [7, 3, 5] ∧ fromSlice [4, 5, 6] = .range 4 7 ∧ fromSlice [1, 1000, 100000] = .sorted [1, 1000, 100000] := by
-  decide
+example : [3, 5, 6, 9].Nodup ∧ (∀ x ∈ [3, 5, 6, 9], x ≤ U64MAX) ∧
+    fromSlice [3, 5, 6, 9] = .bitmap 3 10 [true, false, true, true, false, false, true] := by decide
+example : fromSlice ((List.range' 1 32) ++ [34]) = .holes 1 35 [33] := by decide
+example : fromSlice [7, 3, 5] = .array [7, 3, 5] ∧ fromSlice [4, 5, 6] = .range 4 7 ∧
+    fromSlice [1, 1000, 100000] = .sorted [1, 1000, 100000] := by decide
+
+/-- the statistics pass (`compute_stats`) and the encoding choice: a strictly increasing list is recognised as sorted
+    (so it never ends up in the order-preserving but search-unfriendly `Array`), an unsorted list needs no side
+    condition to be kept faithfully -/
+theorem from_slice_encoding (xs : List Nat) (hle : ∀ x ∈ xs, x ≤ U64MAX) :
+    (xs.Pairwise (· < ·) → (computeStats xs).sorted = true ∧ (fromSlice xs).sortedKind = true) ∧
+    ((computeStats xs).sorted = false → fromSlice xs = .array xs) := by
+  constructor
+  · intro hp
+    have hs := computeStats_sorted xs hle hp
+    refine ⟨hs, ?_⟩
+    unfold fromSlice fromStats
+    simp only [hs, if_true]
+    repeat' split
+    all_goals rfl
+  · intro hs
+    unfold fromSlice fromStats
+    simp [hs]
+
+example : [2, 4, 9].Pairwise (· < ·) ∧ (computeStats [4, 2, 9]).sorted = false := by decide
+
+/-- `len`, `get`, `position`, `contains`-style lookups read the plain list -/
+theorem seg_len_get_position (s : Seg) (hw : s.WF) :
+    s.len = s.toList.length ∧ (∀ i, s.get i = s.toList[i]?) ∧
+    (s.toList.Nodup → ∀ v i, (s.position v = some i ↔ s.toList[i]? = some v)) ∧
+    (s.toList.Nodup → ∀ v, (s.position v = none ↔ v ∉ s.toList)) :=
+  ⟨s.len_eq hw, s.get_eq hw, fun hnd v i => s.position_spec hw hnd v i, fun hnd v => s.position_none hw hnd v⟩
+
+example : (Seg.holes 10 16 [12, 13]).WF ∧ (Seg.holes 10 16 [12, 13]).toList = [10, 11, 14, 15] ∧
+    (Seg.holes 10 16 [12, 13]).position 14 = some 2 := by
+  refine ⟨by simp [Seg.WF], by decide, by decide⟩
+
+/-- `U64Segment::slice` is `drop`/`take` -/
+theorem seg_slice_faithful (s : Seg) (off len : Nat) (hnd : s.toList.Nodup) (hle : ∀ x ∈ s.toList, x ≤ U64MAX) :
+    (s.slice off len).toList = (s.toList.drop off).take len ∧ (s.slice off len).WF :=
+  s.slice_toList off len hnd hle
+
+/-- `U64Segment::delete` of values that occur in the segment, given in order of appearance (its documented
+    precondition), removes exactly those values -/
+theorem seg_delete_faithful (s : Seg) (vals : List Nat) (hnd : s.toList.Nodup) (hle : ∀ x ∈ s.toList, x ≤ U64MAX)
+    (hsub : vals.Sublist s.toList) :
+    (s.delete vals).toList = s.toList.filter (fun x => !vals.contains x) ∧ (s.delete vals).WF := by
+  obtain ⟨h1, h2⟩ := s.delete_toList vals hnd hle
+  exact ⟨by rw [h1, skipWalk_eq_filter _ _ hnd hsub], h2⟩
+
+example : [11, 14].Sublist (Seg.holes 10 16 [12, 13]).toList := by decide
+
+/-- `U64Segment::mask` with strictly increasing in-range positions does not panic and removes exactly the ids at those
+    positions; `removeIdx` is characterised by `remove_idx_meaning` -/
+theorem seg_mask_faithful (s : Seg) (ps : List Nat) (hw : s.WF) (hp : ps.Pairwise (· < ·)) (hb : ∀ p ∈ ps, p < s.len) :
+    ∃ s', s.mask ps = some s' ∧ s'.toList = removeIdx 0 s.toList ps ∧ s'.WF :=
+  s.mask_spec ps hw hp hb
+
+theorem remove_idx_meaning (l ps : List Nat) :
+    (removeIdx 0 l ps).Sublist l ∧ ∀ x, (x ∈ removeIdx 0 l ps ↔ ∃ j, l[j]? = some x ∧ j ∉ ps) :=
+  ⟨removeIdx_sublist 0 l ps, removeIdx_getElem l ps⟩
+
+example : removeIdx 0 [10, 11, 14, 15] [1, 2] = [10, 15] ∧ (Seg.holes 10 16 [12, 13]).mask [1, 2] = some (.array [10, 15]) →
+    False := by decide
+example : (Seg.holes 10 16 [12, 13]).mask [1, 2] = some (.bitmap 10 16 [true, false, false, false, false, true]) := by decide
+
+/-- `U64Segment::with_new_high` on a well-formed segment never panics: it either appends the value — which is then larger
+    than every id, for every encoding — or returns `Err` because the value is not above the segment's declared range -/
+theorem with_new_high_faithful (s : Seg) (hw : s.WF) (v : Nat) :
+    (∃ s', s.withNewHigh v = some (some s') ∧ s'.toList = s.toList ++ [v] ∧ s'.WF ∧ ∀ x ∈ s.toList, x < v) ∨
+    (s.withNewHigh v = some none ∧ ∃ lo hi, s.bounds = some (some (lo, hi)) ∧ v ≤ hi) :=
+  s.withNewHigh_spec hw v
+
+example : (Seg.range 5 8).withNewHigh 12 = some (some (.holes 5 13 [8, 9, 10, 11])) ∧
+    (Seg.bitmap 5 9 [true, false, true, true]).withNewHigh 10 = some (some (.bitmap 5 11 [true, false, true, true, false, true])) ∧
+    (Seg.range 5 8).withNewHigh 7 = some none := by decide
+
+/-! ## Part 2: sequences (`RowIdSequence`) -/
+
+/-- `len` and `get` -/
+theorem seq_len_get (q : Seq) (hw : Seq.WF q) :
+    Seq.len q = (Seq.toList q).length ∧ ∀ i, Seq.get q i = (Seq.toList q)[i]? :=
+  ⟨Seq.len_eq q hw, fun i => Seq.get_eq q i hw⟩
+
+/-- `extend` appends (even when it merges two adjacent ranges) -/
+theorem seq_extend_faithful (a b : Seq) (ha : Seq.WF a) (hb : Seq.WF b) :
+    Seq.toList (Seq.extend a b) = Seq.toList a ++ Seq.toList b ∧ Seq.WF (Seq.extend a b) :=
+  Seq.extend_toList a b ha hb
+
+example : Seq.extend [Seg.range 0 5] [Seg.range 5 9, Seg.array [3, 1]] = [Seg.range 0 9, Seg.array [3, 1]] := by decide
+
+/-- `slice(off, len).iter()` within bounds is `drop`/`take` and does not panic -/
+theorem seq_slice_faithful (q : Seq) (off len : Nat) (hw : Seq.WF q) (hb : off + len ≤ (Seq.toList q).length) :
+    Seq.slice q off len = some (((Seq.toList q).drop off).take len) :=
+  Seq.slice_spec q off len hw hb
+
+example : Seq.slice [Seg.range 0 4, Seg.holes 10 14 [11], Seg.array [9, 8, 7]] 3 5 = some [3, 10, 12, 13, 9] := by decide
+
+/-- `select` on a sorted selection yields the ids at those offsets (offsets past the end are ignored, as documented);
+    an unsorted selection panics (as documented) -/
+theorem seq_select_faithful (q : Seq) (hw : Seq.WF q) :
+    (∀ sel : List Nat, sel.Pairwise (· ≤ ·) → Seq.select q sel = some (sel.filterMap (fun i => (Seq.toList q)[i]?))) ∧
+    (∀ (pre post : List Nat) (a b : Nat), b < a → (pre ++ [a]).Pairwise (· ≤ ·) →
+      Seq.select q (pre ++ a :: b :: post) = none) :=
+  ⟨fun sel hs => Seq.select_spec q sel hw hs, fun pre post a b h hp => Seq.select_unsorted q a b pre post h hw hp⟩
+
+/-- `mask` with strictly increasing positions (past-the-end positions are ignored) removes exactly the ids at those
+    positions -/
+theorem seq_mask_faithful (q : Seq) (ps : List Nat) (hw : Seq.WF q) (hp : ps.Pairwise (· < ·)) :
+    ∃ q', Seq.mask q ps = some q' ∧ Seq.toList q' = removeIdx 0 (Seq.toList q) ps ∧ Seq.WF q' :=
+  Seq.mask_spec q ps hw hp
+
+example : Seq.mask [Seg.range 0 3, Seg.array [9, 8]] [0, 1, 2, 4, 7] = some [Seg.array [9]] := by decide
+
+/-- `delete` removes every requested id that is present and nothing else, keeps the order, and tolerates absent and
+    repeated ids in the request (the latter since `fix:` b9e6f0d) -/
+theorem seq_delete_faithful (q : Seq) (ids : List Nat) (hw : Seq.WF q) (hnd : (Seq.toList q).Nodup)
+    (hle : ∀ x ∈ Seq.toList q, x ≤ U64MAX) :
+    ∃ q', Seq.delete q ids = some q' ∧ Seq.toList q' = (Seq.toList q).filter (fun x => !ids.contains x) ∧ Seq.WF q' :=
+  Seq.delete_spec q ids hw hnd hle
+
+example : (Seq.delete [Seg.range 0 10] [5, 5, 7, 99]).map Seq.toList = some [0, 1, 2, 3, 4, 6, 8, 9] := by decide
+
+/-- `mask_to_offset_ranges` (as fixed in 9f65218): the returned ranges are non-empty and, expanded, are exactly the
+    offsets of the ids the mask selects, in increasing order — for every encoding and every position of the segment in
+    the sequence -/
+theorem mask_to_offset_ranges_faithful (q : Seq) (sel : Nat → Bool) (hw : Seq.WF q) :
+    expandRanges (Seq.maskToOffsetRanges sel q 0) = selOffsets sel (Seq.toList q) 0 ∧
+    ∀ r ∈ Seq.maskToOffsetRanges sel q 0, r.1 < r.2 :=
+  ⟨Seq.maskToOffsetRanges_go q sel 0 hw, Seq.maskToOffsetRanges_nonempty q sel 0⟩
+
+/-- the design-spike witness: `[0..10] ++ [100,102,…,162]`, mask `{104,106,120}` → offsets 12, 13, 20 -/
+example : Seq.maskToOffsetRanges (fun v => [104, 106, 120].contains v)
+    [Seg.range 0 10, fromSlice ((List.range 32).map (fun i => 100 + 2 * i))] 0 = [(12, 14), (20, 21)] := by decide
+
+/-! ## Part 3: `rechunk_sequences` and `select_row_ids` -/
+
+/-- re-chunking succeeds exactly when the sizes cover all ids and (unless `allow_incomplete`) nothing more; chunk `i` is
+    the `i`-th consecutive piece of the concatenated ids -/
+theorem rechunk_faithful (seqs : List Seq) (sizes : List Nat) (allow : Bool) (hw : ∀ q ∈ seqs, Seq.WF q)
+    (hnd : (seqs.flatMap Seq.toList).Nodup) (hle : ∀ x ∈ seqs.flatMap Seq.toList, x ≤ U64MAX) :
+    (if (seqs.flatMap Seq.toList).length ≤ sizes.sum ∧ (sizes.sum ≤ (seqs.flatMap Seq.toList).length ∨ allow = true) then
+      ∃ chunks, rechunk seqs sizes allow = some chunks ∧
+        chunks.map Seq.toList = chunksOf sizes (seqs.flatMap Seq.toList) ∧ ∀ c ∈ chunks, Seq.WF c
+     else rechunk seqs sizes allow = none) :=
+  rechunk_spec seqs sizes allow hw hnd hle
+
+/-- what `chunksOf` means: as many chunks as sizes, concatenating to the first `sum` ids, chunk `i` of size `sizes[i]`
+    (shorter only where the ids ran out) -/
+theorem chunks_of_meaning (sizes l : List Nat) :
+    (chunksOf sizes l).flatten = l.take sizes.sum ∧ (chunksOf sizes l).length = sizes.length ∧
+    ∀ i (h : i < sizes.length), ∀ c, (chunksOf sizes l)[i]? = some c → c.length ≤ sizes[i] ∧
+      (sizes.sum ≤ l.length → c.length = sizes[i]) :=
+  ⟨chunksOf_flatten sizes l, (chunksOf_lengths sizes l).1, (chunksOf_lengths sizes l).2⟩
+
+example : (rechunk [[Seg.range 0 5], [Seg.range 0 0]] [2, 3] false).map (List.map Seq.toList) = some [[0, 1], [2, 3, 4]] ∧
+    rechunk [[Seg.range 0 5]] [2, 2] true = none ∧ rechunk [[Seg.range 0 5]] [2, 4] false = none ∧
+    (rechunk [[Seg.range 0 5]] [2, 4] true).map (List.map Seq.toList) = some [[0, 1], [2, 3, 4]] := by decide
+
+/-- `select_row_ids` for `Range`, `RangeTo`, `RangeFrom` (via `slice`) and `Indices` (via `get`) -/
+theorem select_row_ids_faithful (q : Seq) (hw : Seq.WF q) :
+    (∀ s e, s ≤ e → selectRange q s e =
+      if e ≤ (Seq.toList q).length then .ok (((Seq.toList q).drop s).take (e - s)) else .err) ∧
+    (∀ s, s ≤ (Seq.toList q).length → selectFrom q s = .ok ((Seq.toList q).drop s)) ∧
+    (∀ ix : List Nat, (∀ i ∈ ix, i < (Seq.toList q).length) →
+      selectIndices q ix = .ok (ix.map (fun i => (Seq.toList q).getD i 0))) := by
+  have hlen := Seq.len_eq q hw
+  refine ⟨?_, ?_, ?_⟩
+  · intro s e hse
+    unfold selectRange sliceSel
+    rw [hlen]
+    by_cases h : e ≤ (Seq.toList q).length
+    · rw [if_neg (by omega), if_pos h, Seq.slice_spec q s (e - s) hw (by omega)]
+    · rw [if_pos (by omega), if_neg h]
+  · intro s hs
+    unfold selectFrom sliceSel
+    rw [hlen, if_neg (by omega), Seq.slice_spec q s _ hw (by omega)]
+    simp only
+    rw [List.take_of_length_le (by simp)]
+  · intro ix hix
+    unfold selectIndices
+    rw [optAll_map_some ix (Seq.get q) (fun i => (Seq.toList q).getD i 0) (by
+      intro i hi
+      rw [Seq.get_eq q i hw, List.getD_eq_getElem?_getD, List.getElem?_eq_getElem (hix i hi)]
+      rfl)]
+
+/-! ## Part 4: `RowIdIndex` -/
+
+/-- The row id index built from fragments `(fragment id, row id sequence, deleted offsets)` maps every present id to its
+    position and no absent id to anything: `RowIdIndex::new` does not fail, and `get` returns the address
+    `fragment_id << 32 | offset` of every live row (`livePairs`) and `None` for every other id.
+    Hypotheses: live row ids are unique (the defining property of stable row ids) and so are live addresses (distinct
+    fragment ids, fewer than 2^32 rows per fragment), all below `u64::MAX`. -/
+theorem index_faithful (frags : List (Nat × Seq × List Nat)) (hw : ∀ f ∈ frags, Seq.WF f.2.1)
+    (hids : ((livePairs frags).map Prod.fst).Nodup) (haddrs : ((livePairs frags).map Prod.snd).Nodup)
+    (hle : ∀ p ∈ livePairs frags, p.1 ≤ U64MAX ∧ p.2 ≤ U64MAX) :
+    ∃ ix, indexNew frags = some ix ∧
+      (∀ id addr, (id, addr) ∈ livePairs frags → indexGet ix id = some addr) ∧
+      (∀ id, id ∉ (livePairs frags).map Prod.fst → indexGet ix id = none) := by
+  obtain ⟨F, h1, h2, h3, h4⟩ := indexNew_spec frags hw hids haddrs hle
+  obtain ⟨g1, g2⟩ := indexGet_spec F h2 h3
+  refine ⟨F, h1, ?_, ?_⟩
+  · intro id addr hm
+    exact g1 id addr (h4.mem_iff.2 hm)
+  · intro id hno
+    apply g2
+    intro hm
+    exact hno ((h4.map Prod.fst).mem_iff.1 hm)
+
+/-- two fragments with interleaved ids (overlapping key ranges are merged), one deleted row -/
+example : livePairs [(1, [Seg.bitmap 0 9 [true, false, true, false, true, false, true, false, true]], []),
+                     (2, [fromSlice [1, 3, 5, 7, 9]], [1])] =
+    [(0, 4294967296), (2, 4294967297), (4, 4294967298), (6, 4294967299), (8, 4294967300),
+     (1, 8589934592), (5, 8589934594), (7, 8589934595), (9, 8589934596)] := by decide
+example : (indexNew [(1, [Seg.bitmap 0 9 [true, false, true, false, true, false, true, false, true]], []),
+                      (2, [fromSlice [1, 3, 5, 7, 9]], [1])]).map (fun ix => [indexGet ix 4, indexGet ix 3, indexGet ix 7]) =
+    some [some 4294967298, none, some 8589934595] := by decide
 
 end LanceModel.C34
